@@ -81,15 +81,18 @@ impl RefLedger {
 
     /// spendable, in-window, value-carrying (non-Bound) outputs
     pub fn spendable(&self, gp: u64) -> Vec<OutRef> {
-        self.utxo
+        let mut v: Vec<OutRef> = self.utxo
             .values()
             .filter(|o| self.in_window(o, gp) && o.slip_type != TYPE_BOUND)
             .cloned()
-            .collect()
+            .collect();
+        // (the map is hash-ordered: sorted so that a seed selects the same outputs in every process)
+        v.sort_by_key(|o| o.key());
+        v
     }
 
     pub fn owned_by(&self, pk: &PK, gp: u64) -> Vec<OutRef> {
-        self.utxo
+        let mut v: Vec<OutRef> = self.utxo
             .values()
             .filter(|o| {
                 &o.owner == pk
@@ -98,7 +101,9 @@ impl RefLedger {
                     && o.slip_type != TYPE_STAKE
             })
             .cloned()
-            .collect()
+            .collect();
+        v.sort_by_key(|o| o.key());
+        v
     }
 
     /// outputs that a wallet-style builder may safely spend (not about to be rebroadcast)
